@@ -150,6 +150,11 @@ func (a ByValue) Swap(i, j int)      { a[i], a[j] = a[j], a[i] }
 // ByDisplay alias to filter by display.
 type ByDisplay []RawValue
 
-func (a ByDisplay) Len() int           { return len(a) }
-func (a ByDisplay) Less(i, j int) bool { return a[i].Display < a[j].Display }
-func (a ByDisplay) Swap(i, j int)      { a[i], a[j] = a[j], a[i] }
+func (a ByDisplay) Len() int { return len(a) }
+func (a ByDisplay) Less(i, j int) bool {
+	if a[i].Display == a[j].Display {
+		return a[i].Value < a[j].Value // deterministic order for equal display texts
+	}
+	return a[i].Display < a[j].Display
+}
+func (a ByDisplay) Swap(i, j int) { a[i], a[j] = a[j], a[i] }
